@@ -77,7 +77,7 @@ def charges(draw, cents, shells=None):
 
 @st.composite
 def case_st(draw, la, lb):
-    shells = draw(gen.basis(nmin=2, nmax=3, lmax=4, first_ls=(la, lb), kmax=3))
+    shells = draw(gen.basis(nmin=2, nmax=3, lmax=4, first_ls=(la, lb), kmax=3).flatmap(gen.with_prefactor_distance))
     pos, q, cls = draw(charges([s["coord"] for s in shells], shells))
     return {"shells": shells, "coords": pos, "charges": q, "ccls": cls}
 
